@@ -324,8 +324,11 @@ class Ctx:
         try:
             outs = run_driver(driver, lines)
         except (DriverError, subprocess.TimeoutExpired) as e:
-            if advisory:
+            if advisory or stream.startswith('kernel:'):
+                # the kernel-level streams are an addition to the property's own streams: a driver of source images
+                # that no longer builds or runs loses the source tie, it does not break the correspondence
                 self.advisory.append({'stream': stream, 'model': f'driver failure: {e}'[:800]})
+                self.src_tie_lost.add('driver:' + driver)
                 return
             self.disagreements.append({'stream': stream, 'input': None, 'model': f'driver failure: {e}'[:1500],
                                        'impl': None})
